@@ -102,7 +102,7 @@ pub fn run(ctx: &Ctx) {
          must equal the brute-force minimum over partition orders 0..=finest and parameters 0..=max_parameter when that minimum < 2^28; \
          non-trivial = search space with >= 2 partition orders whose optimum is not (order 0, one parameter)",
     );
-    let per = ctx.tier.scale(250, 15);
+    let per = ctx.tier.scale(3000, 8);
     let co = CfgOpts { allow_multithread: false, max_block: 8192, ..Default::default() };
     let io = InOpts { heavy: true, wide_bias: true, ..Default::default() };
     ctx.search("heavy-pow2", 16, per, &|| stream_case_strategy(co, io, false).prop_map(pow2), check);
